@@ -1,5 +1,72 @@
-import TshVerif.Model.ConvBash
+/-
+  C17 - write, read and exists behave as a line store over the file system.
+
+  Proved here, about the model of transpiler.go/converters/bash (`WriteFile`, `ReadFile`, `Exists`)
+  that the check ties to the code byte for byte:
+    * `write_line`: `write(p, s[, append])` emits, after the statements of its operands, exactly one
+      line: `if [ "<append>" -eq "1" ]; then printf '%s\n' "<s>" >> "<p>"; else printf '%s\n' "<s>" > "<p>"; fi`
+      -- one file (the same quoted path in both branches), the same quoted content in both
+      branches, always followed by exactly one newline (`printf '%s\n'`), appended only when the
+      flag is 1; nothing else of the script mentions the path;
+    * `write_path_and_content_opaque`: for literal path and content (blanks included, no `$`/backquote)
+      both are read back by bash byte for byte (Lemmas/Quote.lean);
+    * `read_line`, `exists_line`: `read` is `h="$(cat -- "<p>")"` (quoted path, `--` ends the options,
+      so a leading dash in a path is data), `exists` is `[ -e "<p>" ]` turned into 1/0;
+    * a non-string path/content or non-bool append flag is an error, never a script.
+  That `$( )` strips ALL trailing newlines (known finding read-strips-trailing-newlines) and what
+  the redirections do to the file system are bash semantics, decided by the execution oracle.
+-/
+import TshVerif.Lemmas.Quote
+import TshVerif.Lemmas.BashStmt
 namespace Tsh.C17
-open Tsh Tsh.Bash
+open Tsh Tsh.Tr Tsh.Bash
+
+/-- **`write` is one line with one path and one content.** -/
+theorem write_line (path content append : String) (s : St) :
+    conv.writeFile path content append s = .ok ((), { s with code := .writeFile append content path :: s.code }) := rfl
+
+theorem write_line_text (a c p : String) :
+    Line.render (.writeFile a c p) =
+      "if [ \"" ++ a ++ "\" -eq \"1\" ]; then printf '%s\\n' \"" ++ c ++ "\" >> \"" ++ p ++ "\"; else printf '%s\\n' \"" ++ c ++ "\" > \"" ++ p ++ "\"; fi" := rfl
+
+/-- literal path and content are read back by bash byte for byte, wherever the template puts them -/
+theorem write_path_and_content_opaque (p c : String) (rest : List Char) (hp : plainString p = true) (hc : plainString c = true) :
+    dqScan [] ((stringToString p).toList ++ '"' :: rest) = .ok p.toList rest ∧
+    dqScan [] ((stringToString c).toList ++ '"' :: rest) = .ok c.toList rest :=
+  ⟨stringToString_roundtrip p rest hp, stringToString_roundtrip c rest hc⟩
+
+/-- a `write` statement with a path that is not a string is rejected (no script) -/
+theorem write_rejects_nonstring_path (path data : Expr) (append : Option Expr) (s : St)
+    (h : (Expr.valueType path).isString = false) :
+    ∃ m, evalStmt conv (.expr (.write path data append)) s = .error m := by
+  unfold evalStmt
+  simp [h, Tr.fail]
+
+theorem write_rejects_nonstring_data (path data : Expr) (append : Option Expr) (s : St)
+    (hp : (Expr.valueType path).isString = true) (h : (Expr.valueType data).isString = false) :
+    (∃ m, evalStmt conv (.expr (.write path data append)) s = .error m) ∨
+    (∃ m, evalStmt conv (.expr (.write path data append)) s = .panic m) := by
+  unfold evalStmt
+  simp only [hp, Bool.not_true, Bool.false_eq_true, if_false]
+  cases hr : evalExpr conv path true s with
+  | ok r => left; simp [bind, hr, h, Tr.fail]
+  | error m => left; exact ⟨m, by simp [bind, hr]⟩
+  | panic m => right; exact ⟨m, by simp [bind, hr]⟩
+
+/-- **`read`**: one assignment of `$(cat -- "<path>")` to a fresh helper -/
+theorem read_line (path : String) (s : St) :
+    readFile path s = .ok (varEvalString s s!"_h{s.varCounter}" false,
+      { s with varCounter := s.varCounter + 1,
+               code := .assign (varName s s!"_h{s.varCounter}" false) s!"$(cat -- \"{path}\")" :: s.code }) := by
+  simp [readFile, bind, nextHelperVar, varAssignment, varEvaluation, Tr.get, addLine, Tr.modify, pure,
+    varEvalString, varName, inFunction]
+
+/-- **`exists`**: `[ -e "<path>" ]` turned into 1 / 0 -/
+theorem exists_line (path : String) (s : St) :
+    existsOp path s = .ok (varEvalString s s!"_h{s.varCounter}" false,
+      { s with varCounter := s.varCounter + 1,
+               code := .assign (varName s s!"_h{s.varCounter}" false) (condAssign s!"[ -e \"{path}\" ]" "1" "0") :: s.code }) := by
+  simp [existsOp, bind, nextHelperVar, varAssignment, varEvaluation, Tr.get, addLine, Tr.modify, pure,
+    varEvalString, varName, inFunction]
 
 end Tsh.C17
